@@ -2,7 +2,7 @@ SPECIFICATION SimSpec
 CONSTANT MaxBlocks = 4
 CONSTANT MaxTry = 3
 CONSTANT WalkLen = 60
-CONSTANT TxIds = {"t1", "t2", "t3", "t4", "t5", "t7", "t8", "t9", "t10"}
+CONSTANT TxIds = {"t1", "t2", "t3", "t4", "t5", "t7", "t8", "t9", "t10", "t11"}
 CONSTANT Recipients = {"none", "c1", "c2"}
 CONSTANT GasPrices = {0, 1}
 CONSTRAINT PrintWalk
